@@ -350,6 +350,9 @@ class Abs(Operator):
 
     def __init__(self, a):
         """Initialise."""
+        if isinstance(a, Abs | Conj):
+            # __new__ returned an already initialised Abs
+            return
         Operator.__init__(self, (a,))
 
     def evaluate(self, x, mapping, component, index_values):
